@@ -57,6 +57,8 @@ impl VM {
     /// Performance: Skipping the bounds check here does not yield any significant performance improvement
     #[inline(always)]
     fn get_local(&self, rel_idx: u16) -> Object {
+        #[cfg(feature = "verif")]
+        crate::verif::probe_local(self.ip, self.bp, rel_idx, self.stack.len());
         self.stack[self.bp as usize + rel_idx as usize]
     }
 
@@ -64,12 +66,16 @@ impl VM {
     /// The passed index is the relative position to the base pointer of the current callframe
     #[inline(always)]
     fn set_local(&mut self, rel_idx: u16, value: Object) {
+        #[cfg(feature = "verif")]
+        crate::verif::probe_local(self.ip, self.bp, rel_idx, self.stack.len());
         self.stack[self.bp as usize + rel_idx as usize] = value;
     }
 
     /// Reads a u16 value from the current position in the instructions array
     #[inline(always)]
     fn read_u8(&mut self) -> u8 {
+        #[cfg(feature = "verif")]
+        crate::verif::probe_read(self.ip, 1, self.instructions.len());
         let v = unsafe { *self.instructions.get_unchecked(self.ip) };
         self.ip += 1;
         v
@@ -78,6 +84,8 @@ impl VM {
     /// Reads a u16 value from the current position in the instructions array
     #[inline(always)]
     fn read_u16(&mut self) -> u16 {
+        #[cfg(feature = "verif")]
+        crate::verif::probe_read(self.ip, 2, self.instructions.len());
         let start = self.ip;
         self.ip += 2;
         let bytes = unsafe { self.instructions.get_unchecked(start..self.ip) };
@@ -87,6 +95,8 @@ impl VM {
     /// Sets the instruction pointer to the given value
     #[inline(always)]
     fn jump(&mut self, ip: u16) {
+        #[cfg(feature = "verif")]
+        crate::verif::probe_jump(self.ip, ip);
         self.ip = ip as usize;
     }
 
@@ -106,6 +116,8 @@ impl VM {
     /// Performance: -25% over a regular call to `Vec::pop()`
     #[inline(always)]
     fn pop(&mut self) -> Object {
+        #[cfg(feature = "verif")]
+        crate::verif::probe_pop(self.stack.len(), self.bp, self.ip);
         debug_assert!(!self.stack.is_empty());
 
         // Safety: if the compiler and VM are implemented correctly, the stack will never be empty
@@ -126,6 +138,8 @@ impl VM {
     /// This also truncates the stack back to SP from when this frame was pushed
     #[inline(always)]
     fn popframe(&mut self) {
+        #[cfg(feature = "verif")]
+        crate::verif::on_popframe(self.ip, self.frames.len());
         // pop frame and return stack to frame's base pointer
         let frame = self.frames.pop().unwrap();
         self.stack.truncate(frame.base_pointer as usize);
@@ -152,6 +166,12 @@ impl VM {
         self.bp = base_pointer;
     }
 
+    /// (stack height, number of call frames, number of globals)
+    #[cfg(feature = "verif")]
+    pub fn verif_state(&self) -> (usize, usize, usize) {
+        (self.stack.len(), self.frames.len(), self.globals.len())
+    }
+
     /// Executes the given Bytecode inside the context of this VM
     pub fn run(&mut self, code: Bytecode) -> Result<Object, Error> {
         #[cfg(feature = "debug")]
@@ -174,6 +194,8 @@ impl VM {
 
         // Keep your friends close
         let constants = code.constants;
+        #[cfg(feature = "verif")]
+        crate::verif::on_run_start(&self.instructions, &constants);
         let mut final_result = Object::null();
 
         // Construct a new garbage collector
@@ -197,6 +219,8 @@ impl VM {
                 let local_idx = self.read_u16();
                 let left = self.get_local(local_idx);
                 let constant_idx = self.read_u16();
+                #[cfg(feature = "verif")]
+                crate::verif::probe_const(self.ip, constant_idx);
                 let right = constants[constant_idx as usize];
                 let result = left.$op(right, gc)?;
                 self.push(result);
@@ -247,9 +271,22 @@ impl VM {
                 }
             }
 
+            #[cfg(feature = "verif")]
+            if let Some(e) = crate::verif::on_dispatch(
+                self.ip,
+                &self.instructions,
+                self.stack.len(),
+                self.bp,
+                self.frames.len(),
+            ) {
+                return Err(e);
+            }
+
             match self.next() {
                 OpCode::Const => {
                     let idx = self.read_u16();
+                    #[cfg(feature = "verif")]
+                    crate::verif::probe_const(self.ip, idx);
                     let value = constants[idx as usize];
                     self.push(value);
                 }
@@ -263,6 +300,8 @@ impl VM {
                 }
                 OpCode::GetGlobal => {
                     let idx = self.read_u16();
+                    #[cfg(feature = "verif")]
+                    crate::verif::probe_global(self.ip, idx, self.globals.len());
                     let value = self.globals[idx as usize];
                     self.push(value);
                 }
@@ -283,6 +322,8 @@ impl VM {
                 }
                 OpCode::JumpIfFalse => {
                     let condition = self.pop();
+                    #[cfg(feature = "verif")]
+                    let condition = crate::verif::override_branch(condition);
                     if condition.tag() != Type::Bool {
                         return Err(Error::TypeError(format!("kan object met type {} niet gebruiken als voorwaarde. Gebruik evt. bool() om te type casten naar boolean.", condition.tag())));
                     }
@@ -344,6 +385,8 @@ impl VM {
                 }
                 OpCode::Call => {
                     let num_args = self.read_u8();
+                    #[cfg(feature = "verif")]
+                    crate::verif::probe_call_height(self.ip, self.stack.len(), num_args);
                     let base_pointer = self.stack.len() as u16 - 1 - num_args as u16;
                     let obj = self.pop();
                     if obj.tag() != Type::Function {
@@ -353,6 +396,15 @@ impl VM {
                         )));
                     }
                     let [ip, num_locals] = obj.as_function();
+                    #[cfg(feature = "verif")]
+                    crate::verif::on_call(
+                        self.ip,
+                        self.stack.len(),
+                        base_pointer,
+                        num_args,
+                        ip,
+                        num_locals,
+                    );
 
                     // Make room on the stack for any local variables defined inside this function
                     for _ in 0..num_locals - num_args as u32 {
@@ -364,6 +416,14 @@ impl VM {
                 OpCode::CallBuiltin => {
                     let builtin = self.read_u8();
                     let num_args = self.read_u8() as usize;
+                    #[cfg(feature = "verif")]
+                    crate::verif::probe_builtin(
+                        self.ip,
+                        builtin,
+                        num_args,
+                        self.stack.len(),
+                        self.bp,
+                    );
                     let mut args = Vec::with_capacity(num_args);
                     for _ in 0..num_args {
                         args.push(self.pop());
@@ -434,6 +494,8 @@ impl VM {
                     self.push(value);
                 }
                 OpCode::Halt => {
+                    #[cfg(feature = "verif")]
+                    crate::verif::probe_halt(self.ip, self.frames.len());
                     gc.untrace(final_result);
                     return Ok(final_result);
                 }
